@@ -1,12 +1,12 @@
 package props
 
 import (
-	"strings"
 	"fmt"
 	"go/token"
 	"go/types"
 	"math"
 	"sort"
+	"strings"
 
 	"golang.org/x/tools/go/ssa"
 
@@ -280,6 +280,20 @@ func rangeOf(v ssa.Value, at *ssa.BasicBlock, depth int) rng {
 		if tr := typeRange(x.Type()); tr.ok && r.ok && (r.lo < tr.lo || r.hi > tr.hi) {
 			r = tr // wrapped
 		}
+	case *ssa.Parameter:
+		// the join of the argument's range over every static call site (the value computed and clamped in the
+		// caller, written in a helper); only when the function has no other way of being called
+		if sites, idx := paramCallSites(x); len(sites) > 0 {
+			first := true
+			for _, site := range sites {
+				ar := rangeOf(site.Common().Args[idx], site.Block(), depth+1)
+				if first {
+					r, first = ar, false
+				} else {
+					r = join(r, ar)
+				}
+			}
+		}
 	default:
 		r = typeRange(v.Type())
 	}
@@ -287,6 +301,38 @@ func rangeOf(v ssa.Value, at *ssa.BasicBlock, depth int) rng {
 		r = typeRange(v.Type())
 	}
 	return refineAt(v, at, r)
+}
+
+// rangeCallers is set by checkC08: the static call sites of every repository function (nil outside that check).
+var rangeCallers map[*ssa.Function][]ssa.CallInstruction
+
+// paramCallSites: the static call sites of p's function and p's argument index, when the function is unexported,
+// is never used as a value and is a plain function or method (so the static sites are all the calls there are).
+func paramCallSites(p *ssa.Parameter) ([]ssa.CallInstruction, int) {
+	fn := p.Parent()
+	if rangeCallers == nil || fn == nil || fn.Object() == nil || fn.Object().Exported() {
+		return nil, 0
+	}
+	idx := -1
+	for i, q := range fn.Params {
+		if q == p {
+			idx = i
+		}
+	}
+	sites := rangeCallers[fn]
+	if idx < 0 || len(sites) == 0 {
+		return nil, 0
+	}
+	for _, s := range sites {
+		if _, isCall := s.(*ssa.Call); !isCall || s.Common().IsInvoke() || idx >= len(s.Common().Args) {
+			return nil, 0
+		}
+	}
+	// the function used as a value anywhere (stored, passed) could be called from unknown places
+	if refs := fn.Referrers(); refs != nil && len(*refs) > 0 {
+		return nil, 0
+	}
+	return sites, idx
 }
 
 // refineEdge narrows r for value v flowing along the CFG edge from->to.
@@ -336,6 +382,42 @@ func checkC08(c *core.Ctx, r *core.Report) {
 	decompVal := c.Fn(pkgCompress, "Decompressor.decompressValue")
 	dodN := c.Fn(pkgCompress, "Decompressor.dodTimestampBitN")
 
+	// the value-side encoder / decoder with the helpers of the package they call directly (a part of
+	// compressValue extracted into a method of its own belongs to it)
+	cone := func(root *ssa.Function) []*ssa.Function {
+		out := []*ssa.Function{root}
+		for _, ci := range core.CallsIn(root) {
+			h := ci.Common().StaticCallee()
+			if h == nil || h.Blocks == nil || core.FnPkgPath(h) != core.FnPkgPath(root) {
+				continue
+			}
+			if recv := h.Signature.Recv(); recv == nil || !types.Identical(recv.Type(), root.Signature.Recv().Type()) {
+				continue
+			}
+			dup := false
+			for _, o := range out {
+				if o == h {
+					dup = true
+				}
+			}
+			if !dup {
+				out = append(out, h)
+			}
+		}
+		return out
+	}
+	compressValCone, decompValCone := cone(compressVal), cone(decompVal)
+	inCone := func(fn *ssa.Function, cn []*ssa.Function) bool {
+		for _, f := range cn {
+			if f == fn {
+				return true
+			}
+		}
+		return false
+	}
+	rangeCallers = c.StaticCallers()
+	defer func() { rangeCallers = nil }()
+
 	// ---------------------------------------------------------------- (1) BOUND
 	nSites := 0
 	for _, fn := range c.RepoFunctions() {
@@ -357,7 +439,7 @@ func checkC08(c *core.Ctx, r *core.Report) {
 			switch {
 			case rv.ok && rv.lo >= 0 && rv.hi <= limit:
 				r.OK("BOUND", construct, c.Pos(call.Pos()), fmt.Sprintf("value range %s fits %d bits", rv, k))
-			case k == 6 && fn == compressVal:
+			case k == 6 && inCone(fn, compressValCone):
 				// 64 significant bits wrap to 0; the reader maps 0 back to 64 (checked below)
 				r.Assume("BOUND", construct, c.Pos(call.Pos()), "significantBits is in [1,64]; 64 is written as 0 in 6 bits and the reader maps 0 back to 64 (reader-side mapping is obligation TABLE:significant-bits-zero-means-64)")
 			case fn.Name() == "Compress" && k == c.ConstVal(pkgCompress, "firstDeltaBits"):
@@ -480,17 +562,19 @@ func checkC08(c *core.Ctx, r *core.Report) {
 	}
 	r.Floor("TABLE", "timestamp prefix codes on the writer side", len(writer), 5)
 	// value header widths
-	widths := func(fn *ssa.Function, callee types.Object, argIdx int) []int64 {
+	widths := func(fns []*ssa.Function, callee types.Object, argIdx int) []int64 {
 		var out []int64
-		for _, call := range callsTo(fn, callee) {
-			if k, ok := core.ConstIntValue(call.Call.Args[argIdx]); ok && k < 64 {
-				out = append(out, k)
+		for _, fn := range fns {
+			for _, call := range callsTo(fn, callee) {
+				if k, ok := core.ConstIntValue(call.Call.Args[argIdx]); ok && k < 64 {
+					out = append(out, k)
+				}
 			}
 		}
 		sort.Slice(out, func(i, j int) bool { return out[i] < out[j] })
 		return out
 	}
-	ww, rw := widths(compressVal, writeBits, 2), widths(decompVal, readBits, 1)
+	ww, rw := widths(compressValCone, writeBits, 2), widths(decompValCone, readBits, 1)
 	r.Check(fmt.Sprint(ww) == fmt.Sprint(rw) && len(ww) >= 2, "TABLE", "value-header-field-widths", c.Pos(compressVal.Pos()),
 		fmt.Sprintf("writer %v = reader %v", ww, rw), fmt.Sprintf("the XOR header fields are written with widths %v but read with widths %v", ww, rw))
 	// first delta width
@@ -561,24 +645,28 @@ func checkC08(c *core.Ctx, r *core.Report) {
 		lzF := c.Field(pkgCompress, "Compressor.leadingZeros")
 		var stored []ssa.Value
 		var storeAt ssa.Instruction
-		for _, b := range compressVal.Blocks {
-			for _, in := range b.Instrs {
-				if st, ok := in.(*ssa.Store); ok {
-					if fa, ok := st.Addr.(*ssa.FieldAddr); ok && core.FieldOfAddr(fa) == lzF {
-						stored = append(stored, st.Val)
-						storeAt = st
+		for _, cf := range compressValCone {
+			for _, b := range cf.Blocks {
+				for _, in := range b.Instrs {
+					if st, ok := in.(*ssa.Store); ok {
+						if fa, ok := st.Addr.(*ssa.FieldAddr); ok && core.FieldOfAddr(fa) == lzF {
+							stored = append(stored, st.Val)
+							storeAt = st
+						}
 					}
 				}
 			}
 		}
 		var wire []ssa.Value
-		for _, call := range callsTo(compressVal, writeBits) {
-			if k, ok := core.ConstIntValue(call.Call.Args[2]); ok && k == 5 {
-				v := call.Call.Args[1]
-				if cv, ok := v.(*ssa.Convert); ok {
-					v = cv.X
+		for _, cf := range compressValCone {
+			for _, call := range callsTo(cf, writeBits) {
+				if k, ok := core.ConstIntValue(call.Call.Args[2]); ok && k == 5 {
+					v := call.Call.Args[1]
+					if cv, ok := v.(*ssa.Convert); ok {
+						v = cv.X
+					}
+					wire = append(wire, v)
 				}
-				wire = append(wire, v)
 			}
 		}
 		construct := "compress.Compressor.compressValue:remembered-window-equals-transmitted-window"
